@@ -1,6 +1,8 @@
 # C20 job table (see DESIGN.md section 3, C20): child processes and Process::Arguments
 from .jobs import job, Q, T
 
+SRC = ['harness/h_process.cpp', 'interpose/fd_track.cpp']
+
 SPEC = dict(
     level='exploration',
     rule='arguments: every argument vector of <= 4 (quick) / <= 5 (thorough) words over 30 tokens (-a -b flags, -c/--gamma required value, -d/--delta optional value, long-only --omega, '
@@ -20,7 +22,17 @@ SPEC = dict(
          'every code meets join(exitCode) within 512 cases); SIGPIPE in the child is ignored (a failing write is reported with its errno) or reset to the default action (seeded); '
          'oracle: join(exitCode) returns the requested code, and the report file of the child shows that no write to stdout/stderr failed and that the child reached its exit call '
          '(the only evidence available after join()/destructor have closed the pipes); read-then-join additionally compares the bytes. The child records CLOCK_MONOTONIC at the end of '
-         'its sleep; late_writes_after_join_entry counts the cases where that is later than the parent\'s entry into join()/destructor.',
+         'its sleep; late_writes_after_join_entry counts the cases where that is later than the parent\'s entry into join()/destructor. '
+         'descriptor hygiene (all proc* jobs + job proc-multi): close/pipe/pipe2/dup*/socketpair/open/select/read/write are interposed (interpose/fd_track.cpp, parent process only) and every library '
+         'call runs inside a scope naming the Process object and the API entry: a library close() that gets EBADF or hits a number currently held by another Process object or by the harness itself, a '
+         'select() failing with EBADF and any read/write/select on another holder\'s number are violations keyed <API entry>/<kind>[/released-earlier-in=<API entry>]; right after start/open the object must not hold both the read and the write end of one pipe (st_ino/O_ACCMODE), after ~Process no descriptor handed '
+         'out for that object may be open, and at the end of every case /proc/self/fd has to list exactly the numbers it listed at the start. proc-multi: case = seeded history of 8..24 steps over 2..4 '
+         'slots on one thread (open through all five overloads incl. re-use of a joined/killed object, partial write, close(any of the 7 stream masks, also on idle objects), 1- and 3-argument read with '
+         'masks that contain closed / never redirected streams, read-to-end-of-file, join(exitCode) / join() / kill / destructor of a running object, harness-owned "bystander" descriptors opened and '
+         'verified (same st_dev/st_ino) in between; after a close() that released a number a child is started in another slot and the first object finished next with probability 1/2, so freed numbers are '
+         're-issued while the releasing object lives - counted by fd_numbers_reissued_while_releaser_alive); children read exactly the bytes written (no end-of-file dependence: later children inherit '
+         'the write ends) and write <= 12000 bytes per stream, so they always terminate; reads are issued only when the model guarantees data or end-of-file; every byte read must be the next byte of that '
+         'child\'s pattern for that stream (complete at end-of-file, never mixed), exit codes, stdin digests and child completion are compared as in job proc.',
     assumptions=['getopt_long conventions as implemented by the reference: options are recognised after operands too (operands are reported in order, not permuted), long names must match '
                  'exactly; words that abbreviate a long name (a GNU extension) and a short option with an optional value followed by more characters in the same word (GNU: attached value, '
                  'libnstd: next cluster member) are outside the compared space and skipped (counted as vectors_outside_conventions_skipped)',
@@ -29,25 +41,40 @@ SPEC = dict(
                  'command-line form: words separated by single spaces, no backslash outside quoted segments, a trailing empty word ("") is not generated (libnstd drops it); inside quoted '
                  'segments a backslash that is neither last nor followed by a quote is literal (job proc-bs)',
                  'runs under ASan/UBSan only; the echo child leaves with _exit (no leak check in the child)',
+                 'descriptor monitor: a descriptor created by a call that is not interposed (none in the current library) is of unknown origin and never reported; after join()/kill() of an object '
+                 'that is still alive no descriptor count is demanded (an implementation may keep pipes readable), only after its destruction and at the end of the case',
+                 'proc-multi: a stream the parent closed early is not compared (the tolerant child may see EPIPE or not, depending on sibling children holding inherited copies); children started '
+                 'while other objects have redirected stdin inherit those write ends (no close-on-exec in libnstd), which is why end-of-file on a child\'s stdin is not part of any oracle here',
                  'late output: that the child writes only after the parent is inside join() is a matter of scheduling (sleep of 20..200 ms); a case where the child was faster still has to '
                  'pass, it only observes less; the number of cases with the intended order is measured (late_writes_after_join_entry) and has a floor. The payload always fits the pipe, '
                  'so a child whose output is never read can finish; a parent that joins a child with more unread output than the pipe holds is outside the statement'],
-    technique='runtime monitoring: reference option parser over exactly-sized argv blocks under ASan; self-exec echo child with file report, reader thread, byte-exact stream comparison',
+    technique='runtime monitoring: reference option parser over exactly-sized argv blocks under ASan; self-exec echo child with file report, reader thread, byte-exact stream comparison; libc interposition (descriptor ownership per Process object), /proc/self/fd conservation, model-based multi-object histories',
     exhaustive={Q: False, T: False},
     jobs=[
-        job('args-exh', 'h_process', 'args-exh', cases=-1, scale={Q: 4, T: 5}, procs=16, probes=['Process.Arguments.read']),
-        job('args-rand', 'h_process', 'args-rand', cases={Q: 32000, T: 500000}, procs=16),
-        job('proc', 'h_process', 'proc', cases={Q: 3200, T: 40000}, procs=16),
-        job('proc-bs', 'h_process', 'proc-bs', cases={Q: 48, T: 600}, procs=16),
-        job('proc-late', 'h_process', 'proc-late', cases={Q: 1280, T: 12800}, procs=16),
+        job('args-exh', 'h_process', 'args-exh', sources=SRC, cases=-1, scale={Q: 4, T: 5}, procs=16, probes=['Process.Arguments.read']),
+        job('args-rand', 'h_process', 'args-rand', sources=SRC, cases={Q: 32000, T: 500000}, procs=16),
+        job('proc', 'h_process', 'proc', sources=SRC, cases={Q: 3200, T: 40000}, procs=16),
+        job('proc-bs', 'h_process', 'proc-bs', sources=SRC, cases={Q: 48, T: 600}, procs=16),
+        job('proc-late', 'h_process', 'proc-late', sources=SRC, cases={Q: 1280, T: 12800}, procs=16),
+        job('proc-multi', 'h_process', 'proc-multi', sources=SRC, cases={Q: 640, T: 8000}, procs=16),
     ],
     floors={Q: dict(vectors=1000000, items_compared=4000000, processes=1600, argv_strings_compared=10000, env_strings_compared=20000, stream_bytes_compared=30000000, payloads_over_pipe_capacity=200,
                     late_children=1280, late_children_not_read_first=1000, late_writes_after_join_entry=800, late_stream_bytes_compared=200000,
-                    **{'set:exit_codes': 230, 'set:item_classes': 22, 'set:overloads': 5, 'set:stream_sets': 8, 'set:overload_x_env': 10,
+                    multi_cases=640, multi_processes=2400, multi_ops=12000, multi_stream_bytes_compared=2000000, multi_streams_read_to_eof=500, multi_stdin_digests_compared=700,
+                    multi_streams_closed_before_finish=800, multi_reads_with_earlier_closed_stream_in_mask=10, multi_bystander_descriptors_verified=700,
+                    multi_cases_with_number_reissued_while_releaser_alive=400, fd_numbers_reissued_while_releaser_alive=1500, fd_library_closes_observed=14000,
+                    fd_quiescent_checks=5000, fd_objects_checked_after_destruction=6000, fd_pipe_end_checks=6000,
+                    **{'set:multi_op_kinds': 16, 'set:multi_finish_x_closed_earlier': 28, 'set:multi_close_masks': 7, 'set:multi_stream_sets': 8, 'set:multi_overloads': 5,
+                       'set:exit_codes': 230, 'set:item_classes': 22, 'set:overloads': 5, 'set:stream_sets': 8, 'set:overload_x_env': 10,
                        'set:late_exit_codes_join_first': 256, 'set:late_finish': 4, 'set:late_stream_sets': 6, 'set:late_overloads': 3, 'set:late_child_sigpipe': 2, 'set:late_finish_x_streams': 24}),
             T: dict(vectors=25000000, items_compared=100000000, processes=16000, argv_strings_compared=100000, env_strings_compared=200000, stream_bytes_compared=300000000, payloads_over_pipe_capacity=2000,
                     late_children=12800, late_children_not_read_first=10000, late_writes_after_join_entry=8000, late_stream_bytes_compared=2000000,
-                    **{'set:exit_codes': 256, 'set:item_classes': 22, 'set:overloads': 5, 'set:stream_sets': 8, 'set:overload_x_env': 10,
+                    multi_cases=8000, multi_processes=30000, multi_ops=150000, multi_stream_bytes_compared=25000000, multi_streams_read_to_eof=6000, multi_stdin_digests_compared=9000,
+                    multi_streams_closed_before_finish=10000, multi_reads_with_earlier_closed_stream_in_mask=250, multi_bystander_descriptors_verified=9000,
+                    multi_cases_with_number_reissued_while_releaser_alive=5000, fd_numbers_reissued_while_releaser_alive=20000, fd_library_closes_observed=150000,
+                    fd_quiescent_checks=60000, fd_objects_checked_after_destruction=70000, fd_pipe_end_checks=70000,
+                    **{'set:multi_op_kinds': 16, 'set:multi_finish_x_closed_earlier': 32, 'set:multi_close_masks': 7, 'set:multi_stream_sets': 8, 'set:multi_overloads': 5,
+                       'set:exit_codes': 256, 'set:item_classes': 22, 'set:overloads': 5, 'set:stream_sets': 8, 'set:overload_x_env': 10,
                        'set:late_exit_codes_join_first': 256, 'set:late_exit_codes_read_first': 256, 'set:late_finish': 4, 'set:late_stream_sets': 6, 'set:late_overloads': 3,
                        'set:late_child_sigpipe': 2, 'set:late_finish_x_streams': 24})},
 )
